@@ -86,7 +86,7 @@ func runC22(c *Ctx) {
 			}
 		}
 	}
-	c.Check(nTag >= 2 && okTag, "header-wrapper-writer", ssaFuncKey(wm), wm.Pos(), "tag 24 wrapper carries the stored header bytes (Byron and Shelley+ forms)", "the wire wrapper does not carry the stored header bytes in a tag-24 byte string")
+	c.Check(nTag >= 1 && okTag, "header-wrapper-writer", ssaFuncKey(wm), wm.Pos(), "tag 24 wrapper carries the stored header bytes (Byron and Shelley+ forms)", "the wire wrapper does not carry the stored header bytes in a tag-24 byte string")
 	wu := c.SSAFunc(rel, "WrappedHeader.UnmarshalCBOR")
 	nU, okU := 0, true
 	for _, b := range wu.Blocks {
@@ -101,12 +101,13 @@ func runC22(c *Ctx) {
 			}
 			nU++
 			d := desc(st.Val)
-			if !(strings.Contains(d, ".Content") && strings.Contains(d, "assert(")) {
+			t := traceIP(wu, st.Val)
+			if !(strings.Contains(d, ".Content") && strings.Contains(d, "assert(")) && !(strings.HasPrefix(t, "assert<Content<")) {
 				okU = false
 			}
 		}
 	}
-	c.Check(nU >= 2 && okU, "header-wrapper-reader", ssaFuncKey(wu), wu.Pos(), "decoded header bytes are the tag content as received", "the decoder does not take the header bytes from the received tag content")
+	c.Check(nU >= 1 && okU, "header-wrapper-reader", ssaFuncKey(wu), wu.Pos(), "decoded header bytes are the tag content as received", "the decoder does not take the header bytes from the received tag content")
 	// (2) NtC
 	nc := c.SSAFunc(rel, "NewMsgRollForwardNtC")
 	okWB := false
@@ -148,9 +149,9 @@ func runC22(c *Ctx) {
 				if fa, ok := st.Addr.(*ssa.FieldAddr); ok {
 					switch fieldName(fa.X.Type(), fa.Field) {
 					case "blockCbor":
-						okB = strings.HasSuffix(desc(st.Val), "WrappedBlock.BlockCbor")
+						okB = strings.HasSuffix(desc(st.Val), "WrappedBlock.BlockCbor") || isFieldOfNamed(st.Val, "WrappedBlock", "BlockCbor")
 					case "blockType":
-						okT = strings.HasSuffix(desc(st.Val), "WrappedBlock.BlockType")
+						okT = strings.HasSuffix(desc(st.Val), "WrappedBlock.BlockType") || isFieldOfNamed(st.Val, "WrappedBlock", "BlockType")
 					}
 				}
 			}
@@ -257,4 +258,27 @@ func (c *Ctx) checkInverseMaps(rel, a, b string) {
 		}
 	}
 	c.Check(ok, "era-maps-inverse", rel+"."+a+"~"+b, 0, "the two tables are mutually inverse bijections", "BlockToBlockHeaderTypeMap and BlockHeaderToBlockTypeMap are not mutually inverse: a block type does not map back to itself through its header era")
+}
+
+// isFieldOfNamed: v reads field `field` of a value whose (pointer-stripped) named type is typeName.
+func isFieldOfNamed(v ssa.Value, typeName, field string) bool {
+	for i := 0; i < 4; i++ {
+		switch x := v.(type) {
+		case *ssa.UnOp:
+			v = x.X
+			continue
+		case *ssa.ChangeType:
+			v = x.X
+			continue
+		case *ssa.Convert:
+			v = x.X
+			continue
+		case *ssa.FieldAddr:
+			return fieldName(x.X.Type(), x.Field) == field && strings.HasSuffix(strings.TrimPrefix(typeStr(x.X.Type()), "*"), "."+typeName)
+		case *ssa.Field:
+			return fieldName(x.X.Type(), x.Field) == field && strings.HasSuffix(typeStr(x.X.Type()), "."+typeName)
+		}
+		break
+	}
+	return false
 }
